@@ -1,0 +1,51 @@
+//go:build verif && linux && !android && !e2e_testing
+
+package udp
+
+import (
+	"log/slog"
+	"net/netip"
+	"unsafe"
+)
+
+// Verification hooks for the batched transmit path (engine `writebatch`). Thin exports only, no behaviour.
+
+// VerifBatchWriter wraps a socket-less batchWriter whose sendFn is scripted by the harness.
+type VerifBatchWriter struct{ w *batchWriter }
+
+// VerifNewBatchWriter builds a batchWriter with n scratch entries and no socket (fd -1).
+func VerifNewBatchWriter(n int, isV4, gsoSupported bool, maxGSOSegments int, l *slog.Logger) *VerifBatchWriter {
+	w := &batchWriter{fd: -1, isV4: isV4, l: l}
+	w.gsoSupported = gsoSupported
+	w.maxGSOSegments = maxGSOSegments
+	w.prepareWriteMessages(n, true)
+	return &VerifBatchWriter{w: w}
+}
+
+func (v *VerifBatchWriter) SetSendFn(f func(start, n int) (int, error)) { v.w.sendFn = f }
+
+func (v *VerifBatchWriter) WriteBatch(bufs [][]byte, addrs []netip.AddrPort) (int, error) {
+	return v.w.WriteBatch(bufs, addrs)
+}
+
+func (v *VerifBatchWriter) GSOSupported() bool { return v.w.gsoSupported }
+
+// Entry returns what mmsghdr slot e points at: its iovecs, its sockaddr bytes and its control bytes.
+func (v *VerifBatchWriter) Entry(e int) (bases []*byte, lens []int, name []byte, control []byte) {
+	hdr := &v.w.msgs[e].Hdr
+	if hdr.Iov != nil {
+		for _, iov := range unsafe.Slice(hdr.Iov, int(hdr.Iovlen)) {
+			bases = append(bases, iov.Base)
+			lens = append(lens, int(iov.Len))
+		}
+	}
+	if hdr.Name != nil {
+		name = unsafe.Slice(hdr.Name, int(hdr.Namelen))
+	}
+	if hdr.Control != nil {
+		control = unsafe.Slice(hdr.Control, int(hdr.Controllen))
+	}
+	return
+}
+
+const VerifMaxGSOBytes = maxGSOBytes
